@@ -27,6 +27,18 @@ pub struct Case {
     pub meta_tape: Vec<u16>,
     pub mutations: Vec<(u16, u16, u16)>,
     pub badlex: Vec<(u8, u16)>,
+    /// 0 = default whitespace skipping, 1..3 = Layout rule (whitespace + comments templates)
+    #[serde(default)]
+    pub layout_mode: u8,
+}
+
+fn kind_of(mode: u8) -> Option<LayoutKind> {
+    match mode {
+        0 => None,
+        1 => Some(LayoutKind::WsLine),
+        2 => Some(LayoutKind::WsLineBlock),
+        _ => Some(LayoutKind::WsLineBlockPlus),
+    }
 }
 
 pub const C15_LR_STEPS: u64 = 100_000;
@@ -40,6 +52,10 @@ pub fn inputs_of(c: &Case) -> Vec<String> {
     for (ii, tape) in c.g.tapes.iter().enumerate() {
         let toks = gen::tokens_for(&bnf, tape, 12);
         let mut cur = Cursor::new(&tape.tape);
+        if c.layout_mode > 0 && ii % 2 == 1 {
+            v.push(gen::render_with_layout(&c.g.spec.terms, &toks, kind_of(c.layout_mode), ii % 3 == 0, &mut cur).text);
+            continue;
+        }
         let style = if ii % 2 == 0 { LayoutStyle::Unicode } else { LayoutStyle::Minimal };
         v.push(gen::render_tokens_sep(&c.g.spec.terms, &toks, style, &mut cur, ii % 3 != 0).text);
     }
@@ -80,6 +96,7 @@ pub fn spec_of(c: &Case) -> GrammarSpec {
         let mut cur = Cursor::new(&c.meta_tape);
         gen::sprinkle_meta(&mut s, &mut cur, true);
     }
+    s.layout = kind_of(c.layout_mode);
     s
 }
 
@@ -177,8 +194,9 @@ impl Prop for C15 {
             prop_oneof![2 => Just(vec![]), 1 => proptest::collection::vec(any::<u16>(), 10..60)],
             proptest::collection::vec((any::<u16>(), any::<u16>(), any::<u16>()), 6..12),
             proptest::collection::vec((any::<u8>(), any::<u16>()), 2..5),
+            prop_oneof![4 => Just(0u8), 1 => Just(1u8), 1 => Just(2u8), 1 => Just(3u8)],
         )
-            .prop_map(|(g, glr, ps, pse, partial, raw_inputs, meta_tape, mutations, badlex)| Case {
+            .prop_map(|(g, glr, ps, pse, partial, raw_inputs, meta_tape, mutations, badlex, layout_mode)| Case {
                 g,
                 glr,
                 ps,
@@ -188,6 +206,7 @@ impl Prop for C15 {
                 meta_tape,
                 mutations,
                 badlex,
+                layout_mode,
             })
             .boxed()
     }
@@ -287,10 +306,15 @@ impl Prop for C15 {
         // many bytes) are always used, free-form strings only when short
         let max_len = if case.glr { 24 } else { 220 };
         let ntape = case.g.tapes.len();
+        let mut ran: Vec<&str> = vec![];
+        if case.layout_mode > 0 {
+            st.class(&format!("grammar-{algo}-with-layout-rule"));
+        }
         for (idx, inp) in inputs.iter().enumerate() {
             if inp.len() > max_len && !(idx < ntape && inp.len() <= 400) {
                 continue;
             }
+            ran.push(inp.as_str());
             st.sub();
             dynp::reset_steps(if case.glr { C15_GLR_STEPS } else { C15_LR_STEPS });
             let r = if case.glr {
@@ -311,6 +335,30 @@ impl Prop for C15 {
                     }
                 }
             }
+        }
+        // the same inputs once more through ONE parser instance (a user who keeps the parser
+        // around): still Ok or Err, never a panic
+        {
+            let budget = if case.glr { C15_GLR_STEPS } else { C15_LR_STEPS };
+            let panic: Option<(usize, PanicInfo)> = if case.glr {
+                let items = dynp::glr_parse_session(&ran, opts, budget, false);
+                st.sub_evaluations += items.len() as u64;
+                items.into_iter().enumerate().find_map(|(k, r)| r.err().map(|p| (k, p)))
+            } else {
+                let items = dynp::lr_parse_session(&ran, opts, budget);
+                st.sub_evaluations += items.len() as u64;
+                items.into_iter().enumerate().find_map(|(k, r)| r.err().map(|p| (k, p)))
+            };
+            if let Some((k, p)) = panic {
+                return fail_panic(
+                    algo,
+                    "default-lexer|reused-parser",
+                    &p,
+                    forced,
+                    format!("{}\none parser instance parsed, in order: {:?}", ctx(ran[k], "default"), &ran[..=k]),
+                );
+            }
+            st.class("reused-parser-session");
         }
         // custom lexers
         let nterms = d.terminals.len();
